@@ -6,6 +6,8 @@ import (
 	"context"
 	"sort"
 	"time"
+
+	"github.com/go-kit/log"
 )
 
 // C15 - keys route to the next active partition; partition states follow legal
@@ -297,11 +299,9 @@ func HarnessC15_Transitions() {
 }
 
 func vfPartLifecycler(store *vfKV, pid int32, waitCount int, wait, del time.Duration) *PartitionInstanceLifecycler {
-	return &PartitionInstanceLifecycler{
-		cfg: PartitionInstanceLifecyclerConfig{PartitionID: pid, InstanceID: "o0", WaitOwnersCountOnPending: waitCount,
-			WaitOwnersDurationOnPending: wait, DeleteInactivePartitionAfterDuration: del},
-		ringName: "r", ringKey: "k", store: store,
-	}
+	cfg := PartitionInstanceLifecyclerConfig{PartitionID: pid, InstanceID: "o0", WaitOwnersCountOnPending: waitCount,
+		WaitOwnersDurationOnPending: wait, DeleteInactivePartitionAfterDuration: del}
+	return NewPartitionInstanceLifecycler(cfg, "r", "k", store, log.NewNopLogger(), nil)
 }
 
 // HarnessC15_ReconcileOwned: a pending partition is promoted exactly when
